@@ -27,4 +27,7 @@ try:
         print(p, "exit", out.returncode, "|", (viol[0][:220] if viol else out.stdout.strip().split("\n")[-1][:200]))
 finally:
     sh("git -C /repo checkout -- . && git -C /repo clean -fdq")
+    # the evidence written while the change was applied describes the changed tree: restore
+    for p in props:
+        sh("git -C /verif checkout -- evidence/%s.json" % p)
 print(json.dumps(res))
